@@ -34,6 +34,14 @@ fn main() {
             eprintln!("panic: {info}");
         }
     }));
+    if let Ok(filter) = std::env::var("VERIF_TRACING") {
+        // Diagnostics: print the product's own tracing events (e.g. VERIF_TRACING=trace).
+        let _ = tracing_subscriber::fmt()
+            .with_env_filter(tracing_subscriber::EnvFilter::new(filter))
+            .with_writer(std::io::stderr)
+            .without_time()
+            .try_init();
+    }
     let args: Vec<String> = std::env::args().collect();
     if args.len() < 2 {
         usage();
@@ -73,6 +81,25 @@ fn main() {
                 std::process::exit(2);
             };
             std::process::exit(runner::replay(&world, &file, &args[2]));
+        }
+        "minimise" => {
+            if args.len() < 3 {
+                usage();
+            }
+            let text = std::fs::read_to_string(&args[2]).expect("read");
+            let mut file: ReplayFile = serde_json::from_str(&text).expect("parse");
+            let world = checks::world_by_name(&file.world).expect("world");
+            let secs: f64 = args.get(3).and_then(|s| s.parse().ok()).unwrap_or(300.0);
+            let (min, execs) = runner::minimise(&world, &file.scenario, &file.property, &file.violation.sig, 100_000, secs);
+            let out = runner::execute_isolated(&world, &min, true);
+            file.scenario = min;
+            file.log = out.log_lines.clone();
+            file.log_hash = format!("{:016x}", out.log_hash);
+            if let Some(v) = out.violations.iter().find(|v| v.sig == file.violation.sig) {
+                file.violation = v.clone();
+            }
+            std::fs::write(&args[2], serde_json::to_string_pretty(&file).unwrap()).expect("write");
+            println!("minimised with {execs} executions");
         }
         "determinism" => {
             if args.len() < 3 {
